@@ -26,7 +26,7 @@ SPEC = {
         # constant settings under paused time).  The main model follows the REPAIRED transmission time
         # (.cache/c05/fix.patch): on the code as it stands both (a) and (b) report the throughput violation.
         {"name": "link_trace", "bin": "c05_link", "model": "link", "kind": "validate", "model_args": "validate",
-         "n_quick": 560, "n_thorough": 24000, "shards": 8, "shards_thorough": 16,
+         "n_quick": 400, "n_thorough": 24000, "shards": 8, "shards_thorough": 16,
          "trivial_re": r"^(CRASH)"},
     ],
     "rule": "case = one scenario: 1..3 networks (MTU unset/0..3/4..40/41..600/1500/255..257/65534/65535; latency zero / "
